@@ -3,6 +3,7 @@ import SV.Spec.JsonSchemaWire
 import SV.Spec.C03
 import SV.Model.C03Cases
 import SV.Spec.C03Cases
+import SV.Spec.C03Doc
 open SV SV.Wire SV.Model.C03 SV.Spec.C03 SV.Spec.JsonSchema
 
 /-- ordered objects travel as {"$o": [[k, v], …]} (the wire layer sorts plain objects) -/
@@ -96,6 +97,51 @@ def encCase (c : Case) : Json :=
         ("parameter_location", match c.parameterLocation with | some p => .str p | none => .null),
         ("spec", jobj [("label_ok", .bool (caseLabelOk c)), ("comps_ok", .bool (compsOk c))])]
 
+/-! document wire format: DECL = [name, loc, required]; ITEM = {keys:[…], shared:[DECL], own:[[method,[DECL]]]};
+    DOC = {entry: {inline: ITEM} | {ref: name}, pathItems: [[name, ITEM]]} -/
+def decDecl : Json → Except String Decl
+  | .arr [.str n, .str l, .bool r] => .ok ⟨n, l, r⟩
+  | _ => .error "bad parameter declaration"
+
+def decItem (j : Json) : Except String PathItem := do
+  return ⟨← asList asStr (← field j "keys"), ← asList decDecl (← field j "shared"),
+          ← asPairs asStr (asList decDecl) (← field j "own")⟩
+
+def decDoc (j : Json) : Except String Doc := do
+  let e ← field j "entry"
+  let entry ← match e.get? "ref" with
+    | some r => do pure (PathEntry.ref (← asStr r))
+    | none => do pure (PathEntry.inline (← decItem (← field e "inline")))
+  return ⟨entry, ← asPairs asStr decItem (← field j "pathItems")⟩
+
+def encCaseDoc (d : Doc) (opm : String) (c : Case) : Json :=
+  match encCase c with
+  | .obj kvs => .obj (kvs ++ [("spec_doc", jobj [("label_ok", .bool (caseLabelOkDoc d opm c)),
+                                                  ("desc_ok", .bool (descOkDoc d opm c))])])
+  | j => j
+
+def decKind (s : String) : Except String Kind :=
+  match s with
+  | "query" => .ok .query | "path_parameters" => .ok .pathParameters | "headers" => .ok .headers
+  | "cookies" => .ok .cookies | "body" => .ok .body | _ => .error "bad kind"
+
+/-- a case as the real code produced it, for the reference predicates: {method (sent, lower-case), mode,
+    comps:[[kind, mode]], parts:[[kind, mode]] (the label every container deserves), desc: {unspecified: m} |
+    {missing: [name, loc]} | null} -/
+def decRealCase (opm : String) (j : Json) : Except String Case := do
+  let sent ← asStr (← field j "method")
+  let mode ← decMode (← field j "mode")
+  let comps ← asPairs (fun k => do decKind (← asStr k)) decMode (← field j "comps")
+  let parts ← asPairs (fun k => do decKind (← asStr k)) decMode (← field j "parts")
+  let dj := optField j "desc"
+  let desc ← match dj.get? "unspecified", dj.get? "missing", dj.get? "missing_property" with
+    | some m, _, _ => do pure (CaseDesc.unspecifiedMethod (← asStr m))
+    | _, some (.arr [.str n, .str l]), _ => pure (CaseDesc.missing n l)
+    | _, _, some (.str p) => pure (CaseDesc.value (.missingRequired p))
+    | _, _, _ => pure CaseDesc.defaultPositive
+  return ⟨if sent == opm then none else some sent, mode, comps, parts.map fun (k, m) => (k, Content.generated m), desc,
+          ← asOpt asStr (optField j "parameter"), ← asOpt asStr (optField j "parameter_location")⟩
+
 def descOfToken (t : String) : Option Desc :=
   match t with
   | "greater-than-maximum" => some .greaterThanMaximum
@@ -143,6 +189,47 @@ def handle : Handler := fun op a => do
     match iterCases vb inp with
     | none => return jobj [("error", .str "KeyError")]
     | some cs => return jobj [("cases", .arr (cs.map encCase))]
+  | "casesdoc" =>
+    -- {vb, doc, opMethod, cfg: [..]|null, streams, hasBody, bodies, pos, neg, negCalls}
+    let vb ← decVariant (a.getD "vb" .null)
+    let doc ← decDoc (← field a "doc")
+    let x : DocIn := ⟨doc, ← asStr (← field a "opMethod"), ← asOpt (asList asStr) (optField a "cfg"),
+      ← asList (asList decLV) (← field a "streams"), ← asBool (← field a "hasBody"), ← asList decBody (← field a "bodies"),
+      ← asBool (← field a "pos"), ← asBool (← field a "neg"), ← asList (asList decLV) (← field a "negCalls")⟩
+    match toOpIn x with
+    | none => return jobj [("error", .str "no-operation")]
+    | some inp =>
+      let shape := [("params", Json.arr (inp.params.map fun p => .arr [.str p.location, .str p.name, .bool p.required])),
+                    ("methods", Json.arr (inp.methods.map .str))]
+      match iterCases vb inp with
+      | none => return jobj (("error", .str "KeyError") :: shape)
+      | some cs => return jobj (("cases", .arr (cs.map (encCaseDoc doc x.opMethod))) :: shape)
+  | "judgedoc" =>
+    -- {doc, opMethod, cases:[real case]} → {documented:[…], cases:[[label_ok, comps_ok, desc_ok]]}
+    let doc ← decDoc (← field a "doc")
+    let opm ← asStr (← field a "opMethod")
+    let cs ← asList (decRealCase opm) (← field a "cases")
+    let asked ← asList (fun j => do match j with
+      | .arr [.str n, .str l] => pure (n, l)
+      | _ => .error "bad pair") (a.getD "required" (.arr []))
+    return jobj [("documented", .arr ((httpMethods.filter (documents doc)).map .str)),
+                 ("op_documented", .bool (documents doc opm)),
+                 ("required", .arr (asked.map fun (n, l) => .bool (requiresParam doc opm n l))),
+                 ("cases", .arr (cs.map fun c => .arr [.bool (caseLabelOkDoc doc opm c), .bool (compsOk c),
+                                                       .bool (descOkDoc doc opm c)]))]
+  | "consumers" =>
+    -- {vh, opMethod, items:[{case: real case, status, allow, reqMethod, onlyAdditional, allowed:[…]}]} → [[ndr, pda, mrh, um]] (true = fails)
+    let vh ← decVariant (a.getD "vh" .null)
+    let opm ← asStr (← field a "opMethod")
+    let items ← asArr (← field a "items")
+    let outs ← items.mapM fun it => do
+      let c ← decRealCase opm (← field it "case")
+      let r : Resp := ⟨← asNat (← field it "status"), ← asBool (← field it "allow"), ← asStr (← field it "reqMethod")⟩
+      let oa ← asBool (← field it "onlyAdditional")
+      let allowed ← asList asNat (← field it "allowed")
+      pure (Json.arr [.bool (negativeDataRejectionFails c r oa), .bool (positiveDataAcceptanceFails c r),
+                      .bool (missingRequiredHeaderFails vh c r allowed), .bool (unsupportedMethodFails c r)])
+    return .arr outs
   | "judge" =>
     -- {env, schema, values:[…], fuel?} → [bool]
     let env ← decEnv (a.getD "env" (.obj []))
